@@ -2394,5 +2394,7 @@ fn main() {
     .sub(Sub::new("avro_soe_f7", 24, 100, sub_avro_soe_f7).tape(16, 64))
     .sub(Sub::new("parquet_meta", 200, 2000, sub_parquet_meta).tape(256, 6000).require(&["input:valid", "input:truncated", "input:corrupted", "outcome:ok", "outcome:err", "delivery:Noisy"]))
     .sub(Sub::new("flight", 400, 8000, sub_flight).tape(256, 6000).require(&["input:valid", "dictionary-messages"]))
-    .run()
+    // worker-subprocess isolation: an abort of the code under test (e.g. an absurd allocation after mis-framed input) is
+    // attributed to the case in flight and reported as a violation instead of killing the check
+    .run_isolated()
 }
